@@ -272,6 +272,7 @@ type ecaseJSON struct {
 	Proto     string   `json:"proto"` // HTTP/1.1 | HTTP/1.0
 	OwnOf     string   `json:"own_of"` // "", "A", "B": whose element was placed in the client chain
 	Method    string   `json:"method"`
+	Nominate  bool     `json:"nominate"` // the client also sends "Connection: Via"
 }
 
 type eobs struct {
@@ -377,14 +378,33 @@ func (rg *rig) run(c ecaseJSON) eobs {
 	for _, l := range c.ClientVia {
 		fields = append(fields, g01rig.Field{"Via", l})
 	}
+	if c.Nominate {
+		fields = append(fields, g01rig.Field{"Connection", "Via"})
+	}
 	fields = append(fields, g01rig.Field{"Accept", "*/*"})
-	raw := g01rig.BuildRequest(c.Method, "http://"+rg.O.Addr()+"/x?y=1", c.Proto, fields, nil)
+	target := "http://" + rg.O.Addr() + "/x?y=1"
+	if c.Method == "CONNECT" {
+		target = rg.O.Addr()
+	}
+	raw := g01rig.BuildRequest(c.Method, target, c.Proto, fields, nil)
 	res, err := cl.Do(raw, c.Method)
 	if err != nil {
 		ob.Err = err.Error()
 		return ob
 	}
 	ob.Status = res.Status
+	if c.Method == "CONNECT" && res.Status == 200 {
+		// use the tunnel: one request to the origin through it
+		inner := g01rig.BuildRequest("GET", "/through-tunnel", "HTTP/1.1", []g01rig.Field{{"Host", rg.O.Addr()}}, nil)
+		ires, err := cl.Do(inner, "GET")
+		if err != nil {
+			ob.Err = "tunnel: " + err.Error()
+			return ob
+		}
+		if ires.Status != 200 {
+			ob.Err = fmt.Sprintf("tunnel: origin answered %d", ires.Status)
+		}
+	}
 	conns1, _ := rg.O.Snapshot()
 	reqs := rg.O.Since(n0)
 	ob.Contacts = len(reqs)
@@ -424,8 +444,12 @@ func coqEcase(rg *rig, c ecaseJSON, o eobs) string {
 	if o.NewConns > contacts {
 		contacts = o.NewConns // a connection opened to the origin is a contact even without a request
 	}
-	return fmt.Sprintf("{| e_route := %s; e_client_via := %s; e_status := %d; e_origin_contacts := %d; e_origin_via := %s |}",
-		coqfmt.List("hop", hops), coqfmt.StrList(c.ClientVia), o.Status, contacts, coqfmt.StrList(o.SeenVia))
+	if c.Method == "CONNECT" && contacts > 1 {
+		contacts = 1 // one tunnel = one contact (connection + the request sent through it)
+	}
+	return fmt.Sprintf("{| e_route := %s; e_client_via := %s; e_nominated := %s; e_connect := %s; e_status := %d; e_origin_contacts := %d; e_origin_via := %s |}",
+		coqfmt.List("hop", hops), coqfmt.StrList(c.ClientVia), coqfmt.Bool(c.Nominate), coqfmt.Bool(c.Method == "CONNECT"),
+		o.Status, contacts, coqfmt.StrList(o.SeenVia))
 }
 
 func genEcase(r *rng.R, rg *rig, sameName bool) ecaseJSON {
@@ -436,7 +460,10 @@ func genEcase(r *rng.R, rg *rig, sameName bool) ecaseJSON {
 	}
 	if r.Chance(1, 8) {
 		c.Method = []string{"POST", "HEAD", "DELETE", "OPTIONS"}[r.Intn(4)]
+	} else if r.Chance(1, 6) {
+		c.Method = "CONNECT"
 	}
+	c.Nominate = r.Chance(1, 12)
 	ownProb := 0
 	tag, name := rg.tagA, rg.A.Name
 	switch r.Intn(6) {
@@ -620,6 +647,16 @@ func main() {
 			)
 		}
 		cases = append(cases, ecaseJSON{Route: "AB", SameName: same, Proto: "HTTP/1.1", Method: "GET", ClientVia: []string{"1.1 alpha", "1.1 " + rg.tagB}, OwnOf: "B"})
+		for _, route := range []string{"A", "AA", "AB", "ABA"} {
+			cases = append(cases,
+				ecaseJSON{Route: route, SameName: same, Proto: "HTTP/1.1", Method: "CONNECT"},
+				ecaseJSON{Route: route, SameName: same, Proto: "HTTP/1.1", Method: "CONNECT", ClientVia: []string{"1.1 alpha", "1.1 " + rg.tagA}, OwnOf: "A"},
+			)
+		}
+		cases = append(cases,
+			ecaseJSON{Route: "A", SameName: same, Proto: "HTTP/1.1", Method: "GET", ClientVia: []string{"1.1 alpha"}, Nominate: true},
+			ecaseJSON{Route: "A", SameName: same, Proto: "HTTP/1.1", Method: "GET", ClientVia: []string{"1.1 " + rg.tagA}, OwnOf: "A", Nominate: true},
+		)
 		for len(cases) < nE2E/2 {
 			cases = append(cases, genEcase(r, rg, same))
 		}
